@@ -6,6 +6,7 @@ operators build z3 terms.  A branch on a symbolic condition (`__bool__`)
 consults the solver and forks; paths are explored depth-first by re-execution
 from a recorded decision prefix.  Nothing here knows anything about ecdsa.
 """
+import os
 import sys
 import time
 import z3
@@ -130,6 +131,10 @@ class Ctx(object):
         self.stats.solver_s += dt
         if dt > self.stats.max_query_s:
             self.stats.max_query_s = dt
+        if dt > 5 and os.environ.get("SYMX_SLOW"):
+            import traceback
+            sys.stderr.write("SLOW QUERY %.1fs -> %s\n%s\n" % (
+                dt, r, "".join(traceback.format_stack(limit=8)[-7:-1])))
         return r
 
     def feasible(self, t):
